@@ -93,8 +93,11 @@ func executeCompaction(db *DB) (compactionMetadata *proto.CompactionMetadata, er
 		return nil, err
 	}
 
+	writerClosed := false
 	defer func() {
-		err = errors.Join(err, writer.Close())
+		if !writerClosed {
+			err = errors.Join(err, writer.Close())
+		}
 	}()
 
 	var readers []sstables.SSTableReaderI
@@ -130,6 +133,14 @@ func executeCompaction(db *DB) (compactionMetadata *proto.CompactionMetadata, er
 		reduceFunc = scanReduceLatestWinsKeepTombstones
 	}
 	err = sstables.NewSSTableMerger(db.cmp).MergeCompact(iterators, writer, reduceFunc)
+	if err != nil {
+		return nil, err
+	}
+
+	// the new table must be written completely before the compaction is flagged as successful below. Otherwise, a crash in
+	// between makes the recovery replace the compacted tables with a table that misses its buffered data and metadata.
+	writerClosed = true
+	err = writer.Close()
 	if err != nil {
 		return nil, err
 	}
